@@ -39,6 +39,13 @@ def specials():
     for x in (1.0, 1.0000000008, 1.0000000016):
         f = S("float", call(x))
         out += [f, ("list", ("elems", (f,)), ()), ("dict", (("a", False, f),), False)]
+    # one instant written under two UTC offsets (aware datetimes compare by instant)
+    import datetime as _dt
+    for d in (_dt.datetime(2024, 3, 1, 12, 0, tzinfo=_dt.timezone.utc),
+              _dt.datetime(2024, 3, 1, 15, 0, tzinfo=_dt.timezone(_dt.timedelta(hours=3))),
+              _dt.datetime(2024, 3, 1, 12, 0)):
+        f = S("datetime", call(d))
+        out += [f, ("dict", (("at", False, f),), False), ("list", ("typed", f), ())]
     # a value that is not equal to itself: a schema pinned to it must still equal itself
     nan = S("float", call(float("nan")))
     out += [nan, ("list", ("elems", (nan,)), ()), ("dict", (("a", False, nan),), False),
@@ -98,7 +105,8 @@ def pair_check(ta, a, tb, b, tier):
     return out, r
 
 
-CUSTOM_PROBES = [1, "a", None, [1], ["a"], {"a": 1}, {"a": "a"}, [], {}]
+CUSTOM_PROBES = [1, "a", None, [1], ["a"], {"a": 1}, {"a": "a"}, [], {}, "Bearer", "bearer", ["BEARER"],
+                 {"a": "bearer"}, 80, 0, [80], {"a": 80}]
 
 
 def custom_objects():
@@ -111,7 +119,9 @@ def custom_objects():
              "int": lambda: schema.int, "str": lambda: schema.str,
              # a plain user subclass of a built-in type, undeclared and pinned, next to the built-in
              "Port": lambda: fwdtype.PortSchema(), "Port(80)": lambda: fwdtype.PortSchema()(80),
-             "int(80)": lambda: schema.int(80)}
+             "int(80)": lambda: schema.int(80),
+             # a user type whose `value` prop is matched case-insensitively
+             "Token('Bearer')": lambda: schema.mc_token("Bearer"), "Token": lambda: schema.mc_token}
     shapes = {"{}": lambda x: x, "list({})": lambda x: schema.list(x), "list([{}])": lambda x: schema.list([x]),
               "dict(a: {})": lambda x: schema.dict({"a": x}), "any({}, none)": lambda x: schema.any(x, schema.none),
               "alias({})": lambda x: schema.alias("C", x)}
@@ -124,6 +134,19 @@ def custom_objects():
 
 def custom_block(acc):
     objs = [(name, mk(), mk) for name, mk in custom_objects()]
+    # schema == value means "the value validates" - for user-defined types too, in both operand
+    # orders, and != is its negation
+    for name, a, _ in objs:
+        for v in CUSTOM_PROBES:
+            acc.count("comparisons")
+            want = verdict(a, v) is True
+            try:
+                got = ((a == v) is True, (v == a) is True, (a != v) is False, (v != a) is False)
+            except Exception as e:  # noqa: BLE001
+                got = "raises:" + type(e).__name__
+            if got != (want,) * 4:
+                acc.violation("C15|custom-types|eq-with-a-value-is-not-validation",
+                              {"custom_pair": [name, name], "value": repr(v), "validates": want, "got": repr(got)})
     for (na, a, mka), (nb, b, _) in itertools.product(objs, repeat=2):
         acc.count("comparisons")
         acc.count("custom_type_pairs")
@@ -141,6 +164,32 @@ def custom_block(acc):
             acc.violation("C15|custom-types|not-equal-to-self-or-rebuild", case)
         if r is True and any(verdict(a, v) != verdict(b, v) for v in CUSTOM_PROBES):
             acc.violation("C15|custom-types|equal-but-verdicts-differ", case)
+
+
+def shared_object_block(acc):
+    """Schemas declared once and REUSED as members (the same object at several positions, on both
+    sides of a comparison): lists of three and four members over two shared objects, bare, with a
+    trailing `...`, as dict members - equal exactly when the member sequences are."""
+    from d42 import schema
+    P, L = schema.dict({"x": schema.int}), schema.str("l")
+    name = {id(P): "P", id(L): "L"}
+    for n in (3, 4):
+        seqs = list(itertools.product((P, L), repeat=n))
+        for xs, ys in itertools.product(seqs, repeat=2):
+            for shape, mk in (("list", lambda m: schema.list(list(m))), ("list+...", lambda m: schema.list(list(m) + [...])),
+                              ("dict", lambda m: schema.dict({f"k{i}": x for i, x in enumerate(m)}))):
+                if n == 4 and shape != "list":
+                    continue
+                acc.count("comparisons")
+                acc.count("shared_member_pairs")
+                a, b = mk(xs), mk(ys)
+                want = all(x is y for x, y in zip(xs, ys))
+                r = eq3(a, b)
+                if r is not want or eq3(b, a) is not want or (a != b) is want:
+                    acc.violation(f"C15|shared-members|equality-differs-from-member-sequences|{shape}",
+                                  {"shared": True, "left": "".join(name[id(x)] for x in xs),
+                                   "right": "".join(name[id(y)] for y in ys), "eq": repr(r)})
+                    return
 
 
 def derivation_block(acc, tier):
@@ -230,6 +279,8 @@ def worker(shard, nshards, tier, seed):
         custom_block(acc)
     if shard == 1 % nshards:
         derivation_block(acc, tier)
+    if shard == 2 % nshards:
+        shared_object_block(acc)
     C = core(tier)
     built = []
     for t in C:
@@ -345,6 +396,10 @@ def run(tier, seed):
 def replay(case):
     if "custom_pair" in case:
         return replay_custom(case)
+    if case.get("shared"):
+        acc = Acc()
+        shared_object_block(acc)
+        return sorted(acc.viol)
     if case.get("derivation"):
         acc = Acc()
         derivation_block(acc, case.get("tier", "quick"))
